@@ -30,7 +30,7 @@ inductive BConv
 inductive Conv
   | base (b : BConv)
   | union (cs : List BConv)           -- `try_functions` in declaration order
-  | tupleCounter (cs : List BConv)    -- `parse_tuple`'s closure: the k-th call uses the k-th item type
+  | tupleCounter (cs : List BConv)    -- `parse_tuple`'s closure: the k-th call uses item type k mod n
   deriving DecidableEq, Repr
 
 inductive ConvOut
@@ -110,7 +110,9 @@ def unionApply (fenv : FEnv) : List BConv → Str → ConvOut
 def Conv.apply (fenv : FEnv) (k : Nat) : Conv → Str → ConvOut
   | .base b, s => b.apply fenv s
   | .union cs, s => unionApply fenv cs s
-  | .tupleCounter cs, s => match cs[k]? with
+  -- since fix b1a5942 the counter wraps around after the last item (`calls_count % len(types)`);
+  -- the closure is never built over an empty list of item types
+  | .tupleCounter cs, s => match cs[k % cs.length]? with
     | some b => b.apply fenv s
     | none => .raise "IndexError".toList
 
@@ -267,7 +269,9 @@ inductive VOut
 def getValue (fenv : FEnv) (act : Act) (i : Nat) (counters : List Nat) (s : Str) :
     Except EOut (Scalar × List Nat) :=
   let k := counters.getD i 0
-  -- `calls_count += 1` happens only after the item parsed successfully (field_parsing.py:238-245)
+  -- `calls_count += 1` happens only after the item parsed successfully (field_parsing.py:245-254);
+  -- a rejected item resets the closure's counter to 0 (fix b1a5942) — the run ends there, so within
+  -- one run that is not observable: across runs every counter is a multiple of its arity
   let counters' := match act.conv, act.conv.apply fenv k s with
     | .tupleCounter _, .ok _ => bump counters i
     | _, _ => counters
